@@ -305,8 +305,8 @@ def run_sections(acc, P, gen):
                     if wf:
                         wf.destroy()
                 if fmt == 'json':
-                    got = json.loads(text) if expected or text.strip() \
-                        else {}
+                    # (a sample without any default is still a JSON object)
+                    got = json.loads(text)
                 else:
                     stray = [l for l in YAML_BREAKS.split(text)
                              if l.strip() and not l.startswith('#')]
